@@ -53,11 +53,31 @@ def d56_trigger(src: str) -> bool:
     return bool(re.search(r"(?m)^\[\^[^\]\n]+\]:[ \t]*\n[ \t]+\S", src))
 
 
+def _def_swallows(src: str) -> bool:
+    """the defect itself, read off the parser's tree of the source: a footnote definition inside a quote / list item / alert that holds more
+    than one block (it took the following blocks of its container as its continuation). A definition whose tree is right is not excused."""
+    from flowmark.formats.flowmark_markdown import flowmark_markdown
+    try:
+        doc = flowmark_markdown().parse(src)
+    except BaseException:  # noqa: BLE001
+        return False
+
+    def walk(e, inside):
+        n = type(e).__name__
+        kids = getattr(e, "children", None)
+        if not isinstance(kids, list):
+            return False
+        if n == "FootnoteDef" and inside and sum(1 for k in kids if type(k).__name__ != "BlankLine") > 1:
+            return True
+        return any(walk(k, inside or n in ("Quote", "ListItem", "Alert")) for k in kids)
+    return walk(doc, False)
+
+
 def d57_trigger(src: str) -> bool:
     """a list inside a footnote definition (on the label line or on a continuation line), or a footnote definition inside a quote or list
     item (finding D57)"""
     import re
-    if re.search(r"(?m)^ {0,3}(?:> ?|[-*+] +|\d+[.)] +)+\[\^[^\]\n]+\]:", src):
+    if re.search(r"(?m)^ {0,3}(?:> ?|[-*+] +|\d+[.)] +)(?:> ?| +|[-*+] +|\d+[.)] +)*\[\^[^\]\n]+\]:", src) and _def_swallows(src):
         return True
     lines = src.split("\n")
     indef = False
